@@ -97,27 +97,41 @@ def check(case, sub="photonic"):
             ("CircuitMaxEmitResetDepth", "depth_penalty", q["reset_depth"], not generic),
             ("CircuitMaxEmitEffDepth", "depth_penalty", q["eff_depth"], not generic),
         ]
-    for cname, kw, want, applies in table:
-        if not applies:
-            continue
-        for mode in ("default", "explicit"):
-            icls = mode
-            cls = getattr(gm, cname)
-            metric = guarded(sub, icls, cls) if mode == "default" else guarded(sub, icls, cls, **{kw: pen})
-            val = guarded(sub, icls, metric.evaluate, None, circ)
-            expect = want if mode == "default" else pen(want)
-            if val != expect:
-                raise Violation(sub, "metric-value", cname, icls, "%s(%s) = %r, quantity computed from the operation list = %r" % (cname, mode, val, expect))
-            if list(metric.log) != [expect]:
-                raise Violation(sub, "metric-log", cname, icls, "log %r after one evaluation" % (metric.log,))
-            cl.append("%s:%s" % (cname, mode))
-    # circuit attributes
-    if guarded(sub, "attr", lambda: circ.depth) != q["depth"]:
-        raise Violation(sub, "metric-value", "circuit.depth", "attr", "%r vs %r" % (circ.depth, q["depth"]))
-    rd = guarded(sub, "attr", lambda: circ.register_depth)
-    for t in "epc":
-        if list(rd[t]) != q["reg_depth"][t]:
-            raise Violation(sub, "metric-value", "circuit.register_depth", "attr", "%s: %r vs %r" % (t, list(rd[t]), q["reg_depth"][t]))
+    metrics = {}
+
+    def evaluate_all(phase):
+        for cname, kw, want, applies in table:
+            if not applies:
+                continue
+            for mode in ("default", "explicit"):
+                icls = mode if phase == 0 else mode + ":re-evaluated"
+                cls = getattr(gm, cname)
+                if (cname, mode) not in metrics:
+                    metrics[(cname, mode)] = guarded(sub, icls, cls) if mode == "default" else guarded(sub, icls, cls, **{kw: pen})
+                metric = metrics[(cname, mode)]
+                val = guarded(sub, icls, metric.evaluate, None, circ)
+                expect = want if mode == "default" else pen(want)
+                if val != expect:
+                    raise Violation(sub, "metric-value", cname, icls, "%s(%s) = %r, quantity computed from the operation list = %r" % (cname, mode, val, expect))
+                if list(metric.log) != [expect] * (phase + 1):
+                    raise Violation(sub, "metric-log", cname, icls, "log %r after %d evaluation(s)" % (metric.log, phase + 1))
+                if phase == 0:
+                    cl.append("%s:%s" % (cname, mode))
+
+    def attributes():
+        if guarded(sub, "attr", lambda: circ.depth) != q["depth"]:
+            raise Violation(sub, "metric-value", "circuit.depth", "attr", "%r vs %r" % (circ.depth, q["depth"]))
+        rd = guarded(sub, "attr", lambda: circ.register_depth)
+        for t in "epc":
+            if list(rd[t]) != q["reg_depth"][t]:
+                raise Violation(sub, "metric-value", "circuit.register_depth", "attr", "%s: %r vs %r" % (t, list(rd[t]), q["reg_depth"][t]))
+
+    # the order of queries must not matter: metrics on the fresh circuit, then the circuit's own depth attributes,
+    # then every metric once more (same metric objects, same circuit), then the attributes again
+    evaluate_all(0)
+    attributes()
+    evaluate_all(1)
+    attributes()
     # log_steps
     m3 = gm.CircuitDepth(log_steps=3)
     for _ in range(7):
